@@ -99,6 +99,14 @@ CHECKS["C05"] = (
     "DESIGN.md section 2 / C05",
 )
 
+CHECKS["C09"] = (
+    "proptest-generated C declaration graphs with a known reference relation x generated root patterns (seven regular-expression forms, five allowlist kinds, blocklists, --no-recursive-allowlist); reference model (regex crate + generator's closure) for roots and minimality, token identity against the full bindings, differential rustc validity of the allowlisted module",
+    "exploration",
+    "Programs are renamed so that many names are proper prefixes of others. Expected roots are computed with the `regex` crate on whole names per kind; the closure with the generator's reference relation (walking through blocklisted items, as bindgen documents, but never emitting them). Checks: every matching item that the full bindings contain is emitted; every emitted item is owned by a declaration in the closure (or matches a pattern itself); no blocklisted item is emitted; each emitted item and layout assertion is token-identical to the one in the full bindings (modulo derive lists under --no-recursive-allowlist); in recursive mode the allowlisted module compiles on its own whenever the full one does.",
+    "C only (namespaces/methods are not generated); known finding excluded by construction: patterns of the form `.*NN` can match id-derived internal names of anonymous types, so suffix patterns are generated as `[A-Z][0-9]*NN`.",
+    "DESIGN.md section 2 / C09",
+)
+
 CHECKS["C10"] = (
     "proptest-generated C programs with a generated hidden set (blocklist by type/item/function/var/file, opaque by option/annotation); inventory predicates + rustc validity with harness-supplied blob definitions + C-vs-Rust layout differential of every visible type; metamorphic baseline (same program, nothing hidden) for compile errors",
     "exploration",
